@@ -13,6 +13,7 @@ CONSTANTS
   Twin = FALSE
   BadPkR = "none"
   Shape = "all"
+  SweepMax = 0
   Emit = FALSE
   EmitWiring = FALSE
   Ordered = TRUE
